@@ -21,7 +21,7 @@ Local Open Scope Z_scope.
 Section C19.
 Variable rt : bool -> Z -> Z.
 Variable view : Z -> Z -> Z.
-Notation Inv := (Inv rt view).
+Notation Inv := (Inv rt view).      (* Inv T s: T = the keys of which a LOADED object may have been changed in place *)
 Notation step := (step rt view).
 Notation run := (run rt view).
 Notation load := (load rt view).
@@ -31,10 +31,15 @@ Notation outs := (outs rt view).
    dotted prefix of another, = the reserved key + exactly the nodes of the file (no orphan nodes), and every cached
    value is what the file holds.  It holds initially and is preserved by EVERY operation - accepted or rejected -
    hence holds after every operation sequence. *)
-Theorem C19_inv : Inv init /\ (forall s o, Inv s -> Inv (fst (step s o))) /\
-                  forall ops, Inv (run init ops).
+Theorem C19_inv : Inv Nobody init /\
+  (forall T s o, Inv T s -> (forall k j, o = Mutate k j -> T k) -> Inv T (fst (step s o))) /\
+  (forall ops, Inv Any (run init ops)) /\
+  (* ... with the cache coherent for every key of which the caller changed no loaded object in place (F-AL) *)
+  (forall (T : key -> Prop) ops, (forall k j, In (Mutate k j) ops -> T k) -> Inv T (run init ops)).
 Proof.
-  split; [apply inv_init|]. split; [exact (step_inv rt view)|]. intros ops. apply run_inv. apply inv_init.
+  split; [apply inv_init|]. split; [exact (step_inv rt view)|]. split.
+  - intros ops. apply run_inv; [apply inv_init | apply muts_ok_any].
+  - intros T ops H. apply run_inv; [apply inv_init | now apply muts_ok_intro].
 Qed.
 
 (* Refinement: after ANY operation sequence the artifact holds, under every key, exactly what the plain finite map
@@ -47,9 +52,9 @@ Theorem C19_refines_map : forall ops,
   (forall k, abs rt (run init ops) k = option_map (back rt) (find k (spec_run [] ops))) /\
   (forall o, is_rej (snd (step (run init ops) o)) = negb (snd (spec_step (spec_run [] ops) o))).
 Proof.
-  intros ops. pose proof (run_refines rt view ops init [] (inv_init rt view) (fun k => eq_refl)) as HR.
+  intros ops. pose proof (run_refines rt view Any ops init [] (inv_init rt view Any) (muts_ok_any ops) (fun k => eq_refl)) as HR.
   split; [exact HR|]. split; [apply (R_abs rt _ _ HR)|].
-  intros o. apply (step_refines rt view _ _ o (run_inv rt view ops init (inv_init rt view)) HR).
+  intros o. apply (step_refines rt view Any _ _ o (run_inv rt view Any ops init (inv_init rt view Any) (muts_ok_any ops)) HR).
 Qed.
 
 (* The handles' filters never reach the file: two histories that differ only in the filters their artifacts were opened
@@ -60,7 +65,7 @@ Theorem C19_filters_never_reach_the_file : forall ops ops', map erase ops = map 
   (forall k, find k (file_of (run init ops)) = find k (file_of (run init ops'))) /\
   (forall k, In k (keys (run init ops)) <-> In k (keys (run init ops'))) /\
   (forall o, is_rej (snd (step (run init ops) o)) = is_rej (snd (step (run init ops') o))).
-Proof. exact (filter_independent rt view). Qed.
+Proof. intros ops ops'. apply (filter_independent rt view Any); apply muts_ok_any. Qed.
 
 (* ... hence the keys the artifact reports are exactly the keys that can be loaded (= reserved key + domain of the map),
    they are what a freshly opened artifact on the same file reports, and loading returns the map's value. *)
@@ -69,28 +74,55 @@ Theorem C19_keys_loadable_reopen : forall ops,
   (forall k, In k (keys s) <-> k = ks_key \/ abs rt s k <> None) /\
   (forall k, In k (keys s) <-> is_rej (snd (load s k)) = false) /\
   (forall f, keys (fst (step s (Reopen f))) = keys s) /\
-  (* a load through the handle returns the stored content seen through the handle's filter; the content itself is whole *)
-  (forall k v, k <> ks_key ->
+  (* a load through the handle returns the stored content seen through the handle's filter; the content itself is whole.
+     GUARD (open finding F-AL): the caller changed in place no object that a load of this key returned *)
+  (forall k v, k <> ks_key -> (forall j, ~ In (Mutate k j) ops) ->
      (snd (load s k) = Loaded v <->
       exists n, find k (file_of s) = Some n /\ v = seen rt view (filt s) n /\ abs rt s k = Some (back rt n))).
-Proof. intros ops. apply keys_loadable_reopen. apply run_inv. apply inv_init. Qed.
+Proof.
+  intros ops.
+  set (T := fun k => exists j, In (Mutate k j) ops).
+  assert (I : Inv T (run init ops)).
+  { apply run_inv; [apply inv_init|]. apply muts_ok_intro. intros k j H. exists j. exact H. }
+  destruct (keys_loadable_reopen rt view T _ I) as [H1 [H2 [H3 H4]]].
+  split; [exact H1|]. split; [exact H2|]. split; [exact H3|].
+  intros k v Hks Hnm. apply (H4 k v Hks). intros [j Hj]. exact (Hnm j Hj).
+Qed.
 
 (* Loading a key returns the roundtrip of the data last written under it: after an accepted write / replace of [d]
    under [k] and ANY further operations none of which writes, removes or replaces [k] *)
 Theorem C19_load_last_written : forall pre o0 k d n post,
   (o0 = Write k d \/ o0 = Replace k d) -> node_of d = Some n ->
   snd (step (run init pre) o0) = Done -> (forall o, In o post -> touches k o = false) ->
+  (* GUARD (open finding F-AL): after the write, the caller changes in place no object that a load of k returned *)
+  (forall j, ~ In (Mutate k j) post) ->
   let s := run init (pre ++ o0 :: post) in
   find k (file_of s) = Some n /\                                      (* the file holds exactly what was given ... *)
   abs rt s k = Some (back rt n) /\                                     (* ... an unfiltered reader gets its roundtrip ... *)
   snd (step s (Load k)) = Loaded (seen rt view (filt s) n).            (* ... the handle gets it through its filter *)
 Proof.
-  intros pre o0 k d n post Ho Hn Hd Hp.
+  intros pre o0 k d n post Ho Hn Hd Hp Hm.
   assert (Happ : forall a b s, run s (a ++ b) = run (run s a) b).
   { induction a as [|x a IH]; intros b s; simpl; [reflexivity | apply IH]. }
   cbv zeta. rewrite Happ.
-  destruct (load_last_written rt view (run init pre) o0 k d n post (run_inv rt view pre init (inv_init rt view)) Ho Hn Hd Hp) as [H1 H2].
+  destruct (load_last_written rt view (run init pre) o0 k d n post
+              (run_inv rt view Any pre init (inv_init rt view Any) (muts_ok_any pre)) Ho Hn Hd Hp Hm) as [H1 H2].
   split; [exact H1|]. split; [unfold abs; now rewrite H1 | exact H2].
+Qed.
+
+(* F-AL: the guard is needed - Artifact.load returns the cached object itself, so after the caller changed a loaded object
+   in place the next load through the same handle returns the changed value, not what was written (the file, and an
+   unfiltered reader, still hold it). *)
+Theorem C19_load_last_written_refuted : exists k d n post,
+  let rt0 := fun (_ : bool) (i : Z) => i in let view0 := fun (_ i : Z) => i in
+  node_of d = Some n /\ snd (Artifact.step rt0 view0 init (Write k d)) = Done /\
+  (forall o, In o post -> touches k o = false) /\
+  snd (Artifact.step rt0 view0 (Artifact.run rt0 view0 init (Write k d :: post)) (Load k)) <> Loaded (Artifact.back rt0 n) /\
+  Artifact.abs rt0 (Artifact.run rt0 view0 init (Write k d :: post)) k = Some (Artifact.back rt0 n).
+Proof.
+  exists [5; 6], (DJson 10), (NJson 10), [Load [5; 6]; Mutate [5; 6] 99].
+  destruct load_last_written_refuted as [H1 [H2 [H3 H4]]]. cbv zeta. repeat split; try assumption.
+  rewrite H3. discriminate.
 Qed.
 
 (* An operation the artifact rejects - whatever the reason - leaves the artifact as it was: the same key list, the
@@ -98,17 +130,23 @@ Qed.
    cache state unless it is a replace whose data turned out unstorable only inside HDFStore.put (then the old node has
    been rewritten and the key's cache entry dropped); and in every case NO later operation sequence can tell that the
    rejected operation was attempted.  (was refuted before commits 18714332, f8d5c251, 4cf26c03, 29349355) *)
-Theorem C19_rejected_unchanged : forall s o e, Inv s -> snd (step s o) = Rej e ->
-  (sim s (fst (step s o)) /\
-   (forall k i, find k (cache (fst (step s o))) = Some i -> find k (cache s) = Some i) /\
-   (bad_replace o = false -> fst (step s o) = s)) /\
-  forall ops, outs (fst (step s o)) ops = outs s ops.
+Theorem C19_rejected_unchanged : forall T s o e, Inv T s -> snd (step s o) = Rej e ->
+  sim s (fst (step s o)) /\
+  (forall k i, find k (cache (fst (step s o))) = Some i -> find k (cache s) = Some i) /\
+  (bad_replace o = false -> fst (step s o) = s).
+Proof. intros T s o e I H. apply (rejected_unchanged rt view T s o e I H). Qed.
+
+(* ... and NO later operation sequence can tell that the rejected operation was attempted.  GUARD (F-AL): as long as the
+   caller changes no loaded object in place (a rejected put-failing replace drops the key's cache entry - with it a
+   changed loaded object the cache was still handing out). *)
+Theorem C19_rejected_indistinguishable : forall s o e ops, Inv Nobody s -> no_mutation ops -> snd (step s o) = Rej e ->
+  outs (fst (step s o)) ops = outs s ops.
 Proof.
-  intros s o e I H. split; [apply (rejected_unchanged rt view s o e I H) | intros ops; apply (rejected_indistinguishable rt view s o e ops I H)].
+  intros s o e ops I Hm H. apply (rejected_indistinguishable rt view Nobody s o e ops (fun k F => F) (muts_ok_nobody ops Hm) I H).
 Qed.
 
 (* ... and the reasons the property lists are indeed rejected (in every reachable state) *)
-Theorem C19_listed_rejections : forall s k d, Inv s ->
+Theorem C19_listed_rejections : forall T s k d, Inv T s ->
   (In k (keys s) -> is_rej (snd (step s (Write k d))) = true) /\
   (~ In k (keys s) -> is_rej (snd (step s (Remove k))) = true /\ is_rej (snd (step s (Replace k d))) = true /\
                       is_rej (snd (step s (Load k))) = true) /\
@@ -118,16 +156,16 @@ Theorem C19_listed_rejections : forall s k d, Inv s ->
   (forall k', In k' (keys s) -> overlaps k k' = true -> is_rej (snd (step s (Write k d))) = true) /\
   is_rej (snd (step s (Remove ks_key))) = true.
 Proof.
-  intros s k d I. simpl. repeat split.
+  intros T s k d I. simpl. repeat split.
   - intros H. now rewrite (duplicate_write_rejected s k d H).
   - destruct (missing_rejected rt view s k d H) as [H1 _]. now rewrite H1.
   - destruct (missing_rejected rt view s k d H) as [_ [H1 _]]. now rewrite H1.
   - destruct (missing_rejected rt view s k d H) as [_ [_ H1]]. now rewrite H1.
-  - apply (not_storable_rejected rt view s k d I H).
-  - apply (not_storable_rejected rt view s k d I H).
-  - intros H. apply (malformed_key_rejected rt view s k d I H).
+  - apply (not_storable_rejected rt view T s k d I H).
+  - apply (not_storable_rejected rt view T s k d I H).
+  - intros H. apply (malformed_key_rejected rt view T s k d I H).
   - intros k' Hk Ho. apply (overlapping_key_rejected s k d k' Hk Ho).
-  - now rewrite (reserved_remove_rejected rt view s I).
+  - now rewrite (reserved_remove_rejected rt view T s I).
 Qed.
 
 (* Filter terms the constructor refuses (two draw terms; a draw comparison other than =, ==, in - encoded as a negative
@@ -137,10 +175,13 @@ Proof. intros s f H. simpl. apply Z.ltb_lt in H. now rewrite H. Qed.
 
 (* Clearing the cache and re-opening the file change neither the keys nor any content, and no later operation
    sequence can tell the difference (same outcomes, same loaded values). *)
-Theorem C19_clear_reopen_neutral : forall s o ops, Inv s -> (o = ClearCache \/ o = Reopen (filt s)) ->
+Theorem C19_clear_reopen_neutral : forall s o ops, Inv Nobody s -> no_mutation ops (* GUARD, F-AL: clearing the cache also
+  drops loaded objects the caller changed in place *) -> (o = ClearCache \/ o = Reopen (filt s)) ->
   (forall k, abs rt (fst (step s o)) k = abs rt s k) /\ keys (fst (step s o)) = keys s /\
   outs (fst (step s o)) ops = outs s ops.
-Proof. exact (clear_reopen_neutral rt view). Qed.
+Proof.
+  intros s o ops I Hm Ho. apply (clear_reopen_neutral rt view Nobody s o ops (fun k F => F) (muts_ok_nobody ops Hm) I Ho).
+Qed.
 
 End C19.
 
@@ -219,6 +260,8 @@ Print Assumptions C19_refines_map.
 Print Assumptions C19_filters_never_reach_the_file.
 Print Assumptions C19_keys_loadable_reopen.
 Print Assumptions C19_load_last_written.
+Print Assumptions C19_load_last_written_refuted.
+Print Assumptions C19_rejected_indistinguishable.
 Print Assumptions C19_rejected_unchanged.
 Print Assumptions C19_listed_rejections.
 Print Assumptions C19_refused_constructor.
